@@ -102,3 +102,13 @@ Theorem C12_codeql_foreign_runs : forall runs1 runs2,
   codeql_spec (JObj [(s_runs, JArr runs1)]) ++ codeql_spec (JObj [(s_runs, JArr runs2)]).
 Proof. exact codeql_spec_app. Qed.
 Print Assumptions C12_codeql_foreign_runs.
+
+(** Which tool a SARIF file is attributed to (sarifs.detect_sarif_tools): exact, and undisturbed by runs a detector cannot
+    inspect or by other tools' runs, wherever they stand in the file. *)
+From CM Require Import Model.SarifTools Proofs.SarifToolsFacts.
+Theorem C12_sarif_attribution_exact : forall files m,
+  detect_tools files = TOk m ->
+  NoDup (map fst m) /\
+  forall t f, In (t, f) m <-> exists runs, In (f, Some runs) files /\ exists run, In run runs /\ detect t run = DYes.
+Proof. exact detect_tools_exact. Qed.
+Print Assumptions C12_sarif_attribution_exact.
